@@ -62,7 +62,9 @@ class C20(Prop):
     KF = {}
     RULE = ("rule files with include directives are materialised in a directory tree under .work (trees, DAGs with "
             "shared leaves, the same directive text in files of different directories meaning different (or the same) "
-            "files within one graph and across calls, global rules with strings (`$a` / `not $a` over different tokens) "
+            "files within one graph and across calls, with the process's working directory in one of those directories or "
+            "a decoy of the same relative name under it, two sessions per run that follow more than 10000 directives "
+            "through the `_in_namespace` calls only, global rules with strings (`$a` / `not $a` over different tokens) "
             "before and after a directive and in its target, chains of 14..19 nested includes, cycles of length 1..4, missing files, directories, "
             "non-UTF-8 and unparsable files, `../`, `./`, detours through existing and missing directories, double and "
             "trailing slashes, absolute paths), compiled by the real compiler in a child process in the three "
@@ -315,20 +317,52 @@ class C20(Prop):
             for c in f["doc"]["cs"]:
                 if "rule" in c:
                     c["rule"]["bad"] = False
+        # the working directory of the process: the root, or one of the directories (whose own `common.yar` is then
+        # a file of the same relative name under the cwd); at the root, a decoy of that name with other content.
+        # A directive is relative to the file it is written in, never to the working directory.
+        cwd = rng.choice([[]] + tops) if rng.chance(2, 3) else []
+        if not inc.startswith("../") and (cwd == [] or rng.chance(1, 2)):
+            dpath = inc.replace("./", "").split("/")
+            if len(dpath) > 1 and dpath[:-1] not in dirs:
+                dirs = dirs + [dpath[:-1]]
+            if not any(f["path"] == dpath for f in files):
+                files.append({"path": dpath, "doc": {"t": "text", "cs": [
+                    {"rule": self.gen_rule(rng, rng.choice(["c0", "decoy"]), [], [], toks)}]}})
+                files[-1]["doc"]["cs"][0]["rule"]["bad"] = False
         style = rng.below(3)
         calls = []
+
+        def from_cwd(path):
+            return self.rel_text(rng, cwd, path, dirs, 9)
         if style == 0:      # one graph: a top-level file includes every main
             files.append({"path": ["top.yar"], "doc": {"t": "text", "cs": [{"inc": "/".join(d + ["main.yar"])} for d in tops]}})
-            calls.append({"kind": "file", "path": "top.yar", "ns": rng.choice([None, "ns1"])})
+            calls.append({"kind": "file", "path": from_cwd(["top.yar"]), "ns": rng.choice([None, "ns1"])})
         else:               # several calls on one compiler, same or different namespaces
             nss = [None] * len(tops) if style == 1 else [None, "ns1", "ns2"][:len(tops)]
             for d, ns in zip(tops, nss):
                 if rng.chance(1, 4):
-                    calls.append({"kind": "str", "doc": {"t": "text", "cs": [{"inc": "/".join(d + ["main.yar"])}]}, "ns": ns})
+                    calls.append({"kind": "str", "doc": {"t": "text", "cs": [{"inc": from_cwd(d + ["main.yar"])}]}, "ns": ns})
                 else:
-                    calls.append({"kind": "file", "path": "/".join(d + ["main.yar"]), "ns": ns})
-        return {"mode": "fs", "shape": "samename", "cwd": [], "dirs": dirs, "files": files, "cb": [], "calls": calls,
+                    calls.append({"kind": "file", "path": from_cwd(d + ["main.yar"]), "ns": ns})
+        return {"mode": "fs", "shape": "samename", "cwd": cwd, "dirs": dirs, "files": files, "cb": [], "calls": calls,
                 "scan": " ".join(t for t in toks if rng.chance(1, 2)), "use_cb": False}
+
+    def gen_many(self, rng, variant):
+        """One compiler fed only through the `_in_namespace` calls, following more than 10000 directives in total:
+        every call must be accepted like its inlined text (the leaf only imports a module, so it may be included
+        any number of times)."""
+        leaf = {"t": "text", "cs": [{"imp": "math"}]}
+        many = {"t": "text", "cs": [{"inc": "leaf.yar"}] * 80}
+        files = [{"path": ["leaf.yar"], "doc": leaf}, {"path": ["many.yar"], "doc": many}]
+        if variant == 0:
+            calls = [{"kind": "file", "path": "many.yar", "ns": "ns1"} for _ in range(130)]
+        else:
+            doc = {"t": "text", "cs": [{"inc": "many.yar"}] * 25 + [
+                {"rule": self.gen_rule(rng, "r", [], ["math"], ["tokA"])}]}
+            doc["cs"][-1]["rule"].update({"bad": False, "global": False, "mods": ["math"], "deps": [], "wild": []})
+            calls = [{"kind": "str", "doc": doc, "ns": "ns%d" % i} for i in range(6)]
+        return {"mode": "fs", "shape": "many", "cwd": [], "dirs": [], "files": files, "cb": [], "calls": calls,
+                "scan": "tokA", "use_cb": False}
 
     def gen_globals(self, rng):
         """Global rules WITH STRINGS on both sides of a directive: before it in the including document and in the
@@ -391,6 +425,9 @@ class C20(Prop):
         out = []
         for i in range(n):
             r = rng.fork("c%d" % i)
+            if i in (10, 20):
+                out.append(self.gen_many(r, 0 if i == 10 else 1))
+                continue
             out.append(self.gen_samename(r) if i % 8 == 3 else self.gen_globals(r) if i % 8 == 6 else self.gen_case(r))
         return out
 
